@@ -477,6 +477,9 @@ class _ExprNorm(ast.NodeTransformer):
         # dict(k=v, ..) == {"k": v, ..}
         if isinstance(f, ast.Name) and f.id == "dict" and not node.args and node.keywords and all(k.arg is not None for k in node.keywords):
             return ast.copy_location(ast.Dict([ast.Constant(k.arg) for k in node.keywords], [k.value for k in node.keywords]), node)
+        # isinstance(x, (A,)) == isinstance(x, A)
+        if isinstance(f, ast.Name) and f.id in ("isinstance", "issubclass") and len(node.args) == 2 and isinstance(node.args[1], ast.Tuple) and len(node.args[1].elts) == 1 and not isinstance(node.args[1].elts[0], ast.Starred):
+            node.args[1] = node.args[1].elts[0]
         # .get(k, None) == .get(k)
         if isinstance(f, ast.Attribute) and f.attr == "get" and len(node.args) == 2 and isinstance(node.args[1], ast.Constant) and node.args[1].value is None and not node.keywords:
             node.args = node.args[:1]
@@ -1528,6 +1531,35 @@ def canonicalise(tree: ast.Module, ref_funcs: Optional[Set[str]], ref_consts: Op
                                 container.append(ast.Pass())
                             stats["dropped_helpers"] = stats.get("dropped_helpers", 0) + 1
             funcs = [t for t in funcs if not (t[2] in [h[0] for h in helpers.values()] and t[2] not in t[3])]
+    # ---- C8 (nested): local function definitions that are new w.r.t. the reference and only ever called directly are
+    #      inlined into their parent (a closure reads its free variables when called — so does the inlined copy)
+    def nested_inline(q, fn) -> int:
+        if ref_funcs is None:
+            return 0
+        nested = {}
+        for st in fn.body:
+            if isinstance(st, ast.FunctionDef) and f"{q}.<locals>.{st.name}" not in ref_funcs and not st.decorator_list and not _recursive(st):
+                if any(isinstance(x, (ast.Nonlocal, ast.Global, ast.Yield, ast.YieldFrom)) for x in ast.walk(st)):
+                    continue
+                nested[st.name] = (st, False)
+        if not nested:
+            return 0
+        for _nm, (hdef, _m) in nested.items():
+            hdef.body = canon.function_body(hdef.body)
+            hp = {a.arg for a in ast.walk(hdef.args) if isinstance(a, ast.arg)}
+            propagate_temporaries(hdef, keep=hp)
+            expression_bodied(hdef)
+        n = inline_helpers(fn, nested, None, canon)
+        for nm_, (hdef, _m) in nested.items():
+            still = any(isinstance(x, ast.Name) and x.id == nm_ and isinstance(x.ctx, ast.Load) for x in ast.walk(fn))
+            if not still and hdef in fn.body:
+                fn.body.remove(hdef)
+                n += 1
+        if n:
+            stats["inlined_helpers"] += n
+            fn.body = canon.function_body(fn.body)
+        return n
+
     # ---- C5 / C6 after inlining (extracted code comes with parameter temporaries)
     for q, cls, fn, _c in funcs:
         if ".<locals>." in q:
@@ -1537,6 +1569,7 @@ def canonicalise(tree: ast.Module, ref_funcs: Optional[Set[str]], ref_consts: Op
             a = _loops_to_comprehensions(fn)
             b = propagate_temporaries(fn, keep=params)
             c = canon_flow.run(fn, canon.noreturn)
+            c += nested_inline(q, fn)
             stats["comprehensions"] += a
             stats["temporaries"] += b
             stats["flow"] = stats.get("flow", 0) + c
